@@ -1221,6 +1221,10 @@ class RT(fw.Prop):
         ms = c["muts"]
         for i in range(len(ms)):
             yield {**c, "muts": ms[:i] + ms[i + 1:]}
+        for i, m in enumerate(ms):
+            if m[0] == "insert":                    # shorten the history of an inserted HUGR
+                for j in range(len(m[2])):
+                    yield {**c, "muts": ms[:i] + [["insert", m[1], m[2][:j] + m[2][j + 1:], m[3]]] + ms[i + 1:]}
         if "seed" in c:
             size, depth = c.get("size", 6), c.get("max_depth", 3)
             for s, d in ((size // 2, depth), (size - 1, depth), (size, depth - 1)):
